@@ -174,7 +174,7 @@ def shard_frames(sh, part, parts):
             df = pd.DataFrame(data, columns=cols)
             if int_frame and rng.random() < 0.5:
                 for c in cols:
-                    if -128 <= min(data[c]) and max(data[c]) <= 127:
+                    if all(isinstance(v, int) for v in data[c]) and -128 <= min(data[c]) and max(data[c]) <= 127:
                         df[c] = df[c].astype('int8')
             ok, _ = sh.call('triplet=heuristic(codes)', 'mixed_rank_graph', cr.mixed_rank_graph, df, args, pipe.SyncPool(), pipe.NullPbar())
         else:
